@@ -82,10 +82,10 @@ def job(args):
         res['file'], res['func'] = c['file'], c['func']
         res['info'] = w.src.func_info(c['file'], c['func'])
         if case == 'contract':
-            spec = ('contract', [], c['ensures'], c['raises'])
+            spec = ('contract', [], c['ensures'], c['raises'], 3000, c.get('ghost_params'))
         else:
             lem = c['lemmas'][case]
-            spec = (case, lem.get('requires', []), lem.get('ensures', {}), lem.get('raises', 'never'), 3000, lem.get('ghost_params'))
+            spec = (case, lem.get('requires', []), lem.get('ensures', {}), lem.get('raises', 'never'), 3000, dict(c.get('ghost_params') or {}, **(lem.get('ghost_params') or {})))
         w.exclusions = exclusions or {}
         try:
             obls, paths, stats = w.verify_case(c, *spec)
@@ -300,7 +300,7 @@ def report(a, P, props, results, bounded, known, seed, t0, world):
             continue
         remaining.append(v)
     violations = remaining
-    if a.update_baseline and not violations and not crashes:
+    if a.update_baseline and not violations and not crashes and REPO == '/repo':
         baseline[prop] = {'clauses': sorted(c for c, s in clause_status.items() if s == 'discharged'),
                           'min_obligations': int(n_obl * 0.8)}
         with open(base_path, 'w') as f:
@@ -352,7 +352,7 @@ def report(a, P, props, results, bounded, known, seed, t0, world):
     ev = {'property_id': prop, 'tier': a.tier if a.tier in ('quick', 'thorough') else 'quick', 'seed': seed, 'level': level,
           'coverage': cov, 'assumptions': list(world.assumptions) + P.get('assumptions', []),
           'wall_s': round(time.time() - t0, 2), 'violations': len(vio_lines)}
-    if not a.only:
+    if not a.only and REPO == '/repo':
         with open(os.path.join(VERIF, 'evidence', f'{prop}.json'), 'w') as f:
             json.dump(ev, f, indent=1, default=str)
     for line in out_lines + vio_lines:
